@@ -40,11 +40,12 @@ def projection (prop : String) (out : Bytes) : String :=
   | "C11" => attrsWhere (ts.filter fun t => isHrefEl t.data) fun _ a =>
       a.key == b!"rel" || a.key == b!"target" || a.key == b!"href"
   | "C12" => attrsWhere ts fun _ a => a.key == b!"crossorigin" || a.key == b!"sandbox"
+  | "C18" => attrsWhere ts fun _ a => a.key == b!"style"
   | _ => hexField out
 
 /-- properties whose verdict is a function of (policy, input, output) -/
 def sanProps : List String :=
-  ["C01", "C02", "C03", "C04", "C05", "C06", "C07", "C08", "C09", "C10", "C11", "C12"]
+  ["C01", "C02", "C03", "C04", "C05", "C06", "C07", "C08", "C09", "C10", "C11", "C12", "C18"]
 
 /-- the style attributes of the output, judged declaration by declaration (C10):
     property allowlisted for the element or globally, value accepted by a registered matcher
@@ -81,6 +82,9 @@ def oracle (kind : String) (prop : String) (p : Policy) (inp out : Bytes) : Bool
   | "C10" => p.allowUnsafe || oracleC10 p out
   | "C11" => p.allowUnsafe || oracleC11 p out
   | "C12" => p.allowUnsafe || oracleC12 p out
+  -- a kept declaration of a matcher-less style rule must be accepted by the default handler of
+  -- its own property (none for an unknown property): the same judgement as C10
+  | "C18" => p.allowUnsafe || oracleC10 p out
   | _ => true
 
 /-! ### known-finding classes (matched against /verif/known_findings.txt by the check) -/
@@ -138,6 +142,7 @@ def handleLine (st : State) (line : String) : State × String :=
       let r := if defaultHandler pr v then "1" else "0"
       -- C18: whatever the real handler accepts must be inert
       let bad := impl == "1" && !inert v
+      if impl == "PANIC" then (st, verdict false r ["C14", "C18"] []) else
       (st, verdict (r == impl) r (if bad then ["C18"] else []) [])
     | _, _ => (st, "bad-hdl")
   | ["policy", pid, opsStr, dump] =>
@@ -242,6 +247,24 @@ def handleLine (st : State) (line : String) : State × String :=
       let m := p.sanitize b
       (st, verdict (m == seq) (hexField m) (if eq == "1" then [] else ["C13"]) [])
     | _, _, _ => (st, "bad-conc")
+  | ["after", pid, inp, impl] =>
+    -- a call made after other calls on the same policy failed part-way: it must not notice
+    match getPolicy st pid, unhexField inp, unhexField impl with
+    | some p, some b, some impl =>
+      let m := p.sanitize b
+      (st, verdict (m == impl) (hexField m) (if m == impl then [] else ["C13", "C16"]) [])
+    | _, _, _ => (st, if impl == "PANIC" then "ok orc=C13,C14,C16" else "bad-after")
+  | ["pfault", pid, inp, k, errf, calls, acc, full] =>
+    -- a destination whose failing Write accepts part of the data
+    match getPolicy st pid, unhexField inp, k.toNat?, boolField errf, calls.toNat?, unhexField acc, unhexField full with
+    | some p, some b, some k, some err, some calls, some acc, some full =>
+      let (ws, _) := p.run {} (tokenize b)
+      let good := (if k < ws.length then err && calls == k + 1 else !err) && hasPrefix acc full
+      (st, verdict true "-" (if good then [] else ["C16"]) [])
+    | _, _, _, _, _, _, _ => (st, "bad-pfault")
+  | ["big", _pid, _len, ok] =>
+    -- a long conforming document (judged by the harness: returned unchanged by every entry point)
+    (st, verdict true "-" (if ok == "1" then [] else ["C07", "C14", "C15"]) [])
   | ["alias", _inp, _outCopy, _out, ok] =>
     -- a result handed out earlier changed (or the caller's input buffer did) while the library was used again
     (st, verdict true "-" (if ok == "1" then [] else ["C01", "C13", "C15"]) [])
